@@ -2,11 +2,13 @@
 from __future__ import annotations
 
 T = "Jelly."
+# generated-from-source = model, for pyjelly/serialize/lookup.py and pyjelly/parse/lookup.py (JellyProofs/Translated.lean)
+TRANSLATED = [T + "Translated." + n for n in ["make_last_to_evict_eq","insert_eq","entry_index_eq","term_index_eq","name_term_index_eq","prefix_term_index_eq","datatype_term_index_eq","lookup_new","lookup_enc_new","lookup_dec_new","assign_entry_eq","at_eq","decode_prefix_eq","decode_name_eq","decode_datatype_eq","C05_translated"]]
 
 REGISTRY: dict[str, dict] = {
     "C05": dict(
-        modules=["C05", "Tables", "C07Grouped"],
-        theorems=[T + "C05_mirror_history", T + "C05_prefix_disabled", T + "C05_term_level_iris"],
+        modules=["C05", "Tables", "C07Grouped", "Translated"],
+        theorems=[T + "C05_mirror_history", T + "C05_prefix_disabled", T + "C05_term_level_iris", *TRANSLATED],
         table_theorems=[T + "tables_constants"],
         rule="LOOKUP: all key histories up to a length over alphabets of size+2 for sizes 1..3 (exhaustive up to the "
              "stated length), random long histories for sizes 0..8, 16, 4096; TermEncoder→Decoder histories. "
@@ -104,8 +106,8 @@ REGISTRY: dict[str, dict] = {
                      "runtime behaviour the model cannot exhibit (claimed partial)"],
     ),
     "C18": dict(
-        modules=["C18", "C18Full", "C18Bytes", "C03"],
-        theorems=[T + "C18_triples", T + "C18_quads", T + "C18_graphs", T + "C18_prefix_on_error",
+        modules=["C18", "C18Full", "C18Bytes", "C03", "Translated"],
+        theorems=[T + "Translated.insert_eq", T + "Translated.make_last_to_evict_eq", T + "Translated.entry_index_eq", T + "C18_triples", T + "C18_quads", T + "C18_graphs", T + "C18_prefix_on_error",
                   T + "C18_triples_bytes", T + "C18_quads_bytes", T + "C18_graphs_bytes",
                   T + "C18_regression_prefix", T + "C18_regression_datatype", T + "C18_regression_name", T + "C18_regression_fits",
                   T + "C03_triples", T + "C03_quads", T + "C03_graphs"],
